@@ -62,6 +62,11 @@ def gen_att(rng, tier, seed):
     mtu_hint = rng.choice([23, 23, 24, 64, 185, 517])
     db = gattdb.gen_db(rng, max_services=4, max_chars=4, perms_pool=PERM_POOL, mtu_hint=mtu_hint)
     ops = []
+    # an application whose value functions raise (the peer's requests on that attribute still get their one answer)
+    for svc in db['services']:
+        for c in svc['chars']:
+            if rng.random() < 0.08:
+                c['kind'] = 'raising_cb'
     twins = rng.random() < 0.2
     if twins:
         # many instances of one service: a search by UUID has more matches than fit into one response
